@@ -262,23 +262,23 @@ var priorPatterns = []string{"z", "c:ff", "c:a5", "r:7", "q:9"}
 // pointer slots become "pp" (after checking they are non-null).
 func canonDump(ans string, ptrs []int) (string, bool) {
 	if !strings.HasPrefix(ans, "ok ") {
-		return strings.ReplaceAll(ans, "#base:_", ""), true
+		return ans, true
 	}
-	cells := rleDecode(ans[3:])
+	rs := parseRuns(ans[3:])
 	ok := true
 	for _, p := range ptrs {
 		nonzero := false
-		for k := 0; k < 8 && p+k < len(cells); k++ {
-			if cells[p+k] != "00" {
+		for _, t := range runsWindow(rs, p, 8) {
+			if t != "00" {
 				nonzero = true
 			}
-			cells[p+k] = "pp"
 		}
 		if !nonzero {
 			ok = false
 		}
+		rs = runsReplace(rs, p, 8, "pp")
 	}
-	return "ok " + rleEncode(cells), ok
+	return "ok " + runsString(rs), ok
 }
 
 func statusToModel(s string) string {
@@ -334,10 +334,10 @@ func (h *harness) objInitOps(rc *rec, pl *pool, lay map[string]*layoutInfo, typ 
 			ans := pl.ask(fmt.Sprintf("objinit %s %d %s", typ, o, pr))
 			var impl string
 			if strings.HasPrefix(ans, "ok ") {
-				raw := rleDecode(ans[3:])
+				raw := parseRuns(ans[3:])
 				for _, p := range ptrs {
-					if p+8 <= len(raw) {
-						v := strings.Join(raw[p:p+8], "")
+					if p+8 <= runsLen(raw) {
+						v := strings.Join(runsWindow(raw, p, 8), "")
 						if old, ok := ptrSeen[p]; ok && old != v {
 							rc.fail("objinit:pointer-varies:"+tag, "a pointer field set by initialize differs between runs over different prior memory",
 								fmt.Sprintf("objinit %s %d %s (offset %d: %s vs %s)", typ, o, pr, p, old, v))
@@ -374,7 +374,7 @@ func (h *harness) objInitOps(rc *rec, pl *pool, lay map[string]*layoutInfo, typ 
 
 // determinedRef[typ][opts] = dump of the first successful run; later runs over other
 // priors must agree on every byte initialize is supposed to determine.
-var determinedRef = map[string][]string{}
+var determinedRef = map[string][]run{}
 var determinedPrior = map[string]string{}
 var detMu sync.Mutex
 
@@ -389,7 +389,7 @@ func firstPartRanges(lay map[string]*layoutInfo, typ string, base int, out *[][2
 	}
 }
 
-func (h *harness) checkDetermined(rc *rec, typ string, opts int, prior string, raw []string, lay map[string]*layoutInfo, tag string) {
+func (h *harness) checkDetermined(rc *rec, typ string, opts int, prior string, raw []run, lay map[string]*layoutInfo, tag string) {
 	if opts&1 != 0 && prior != "z" {
 		// ALREADY_ZEROED over memory that is not zero: the caller broke the contract
 		return
@@ -410,16 +410,14 @@ func (h *harness) checkDetermined(rc *rec, typ string, opts int, prior string, r
 	if opts&1 == 0 && opts&2 != 0 {
 		firstPartRanges(lay, typ, 0, &ranges)
 	} else {
-		ranges = [][2]int{{0, len(raw)}}
+		ranges = [][2]int{{0, runsLen(raw)}}
 	}
 	for _, rg := range ranges {
-		for i := rg[0]; i < rg[1] && i < len(raw) && i < len(ref); i++ {
-			if raw[i] != ref[i] {
-				rc.fail("objinit:prior-dependent:"+tag,
-					fmt.Sprintf("byte %d of %s after initialize(options=%d) depends on the prior memory (%s over %s, %s over %s)", i, typ, opts, raw[i], prior, ref[i], determinedPrior[key]),
-					fmt.Sprintf("objinit %s %d %s\nobjinit %s %d %s", typ, opts, prior, typ, opts, refPrior))
-				return
-			}
+		if i, x, y := runsDiffInRange(raw, ref, rg[0], rg[1]); i >= 0 {
+			rc.fail("objinit:prior-dependent:"+tag,
+				fmt.Sprintf("byte %d of %s after initialize(options=%d) depends on the prior memory (%s over %s, %s over %s)", i, typ, opts, x, prior, y, refPrior),
+				fmt.Sprintf("objinit %s %d %s\nobjinit %s %d %s", typ, opts, prior, typ, opts, refPrior))
+			return
 		}
 	}
 }
@@ -639,7 +637,7 @@ func (h *harness) hashSection() {
 	}
 	for _, codec := range []string{"adler32", "crc32", "crc64"} {
 		for _, n := range sizes {
-			data := payload(rd, rd.Intn(5), n)
+			data := payload(rd, rd.Intn(6), n)
 			if rd.Intn(4) == 0 {
 				for i := range data {
 					data[i] = 0xFF // maximises the adler32 sums
